@@ -208,14 +208,19 @@ def history_case(case):
     import contextlib
     import io
     try:
-        if twice:
+        if "default_factor" in history:
+            # the weight left at its documented default: the term carries the documented factor
+            from mc.defaults import documented_defaults
+            factor = float(documented_defaults(add_mlcl_constraint).get("factor", 1.0))
+            model = add_mlcl_constraint(model, ML5, CL5)
+        elif twice:
             model = add_mlcl_constraint(model, ML5, None, factor)
             model = add_mlcl_constraint(model, None, CL5, 0.5 * factor)
         else:
             model = add_mlcl_constraint(model, ML5, CL5, factor)
         for ev in history:
             marks.append(ev)
-            if ev in ("twice", "verbose"):
+            if ev in ("twice", "verbose", "default_factor"):
                 continue
             if ev == "worker":
                 # the decorated, not yet fitted model is sent to a joblib worker (cloudpickle) and trained there
@@ -283,7 +288,7 @@ def explorers(tier, seed):
     for family in TRAIN_MODELS + ["SparseMLPModel"]:
         for gemini in ("mmd_ova", "mi"):
             for bs in ([None] if family == "CategoricalModel" else [2, None]):
-                hists = [("fit", "fit"), ("fit", "query", "fit"), ("fit", "fit", "fit"), ("twice", "fit"), ("twice", "fit", "fit"), ("verbose", "fit"), ("verbose", "twice", "fit"), ("setbs", "fit"), ("fit", "setbs", "fit"), ("worker", "fit"), ("twice", "worker", "fit"), ("fit", "worker", "fit")] + ([("path",), ("fit", "path"), ("path", "fit")] if family in M.SPARSE else [])
+                hists = [("fit", "fit"), ("fit", "query", "fit"), ("fit", "fit", "fit"), ("twice", "fit"), ("twice", "fit", "fit"), ("verbose", "fit"), ("verbose", "twice", "fit"), ("setbs", "fit"), ("fit", "setbs", "fit"), ("worker", "fit"), ("twice", "worker", "fit"), ("fit", "worker", "fit"), ("default_factor", "fit")] + ([("path",), ("fit", "path"), ("path", "fit")] if family in M.SPARSE else [])
                 for h in hists:
                     c4.append((family, 3.0, bs, gemini, h, seed))
     return [
